@@ -169,11 +169,46 @@ def churn(trials, use_psutil):
     return {"trials": trials, "hung": hung, "max_took_s": max(took) if took else None, "workers_alive_after": survivors,
             "psutil": U.psutil is not None}
 
+def churn_death(trials):
+    """a pool breaks (one worker kills itself) while the other worker's process tree keeps changing: everybody must be killed and reaped"""
+    from loky import ProcessPoolExecutor
+    survivors, unresolved, slow = [], 0, 0
+    for _ in range(trials):
+        e = ProcessPoolExecutor(2)
+        f1 = e.submit(churn_task)
+        time.sleep(0.4)
+        pids = list(e._processes)
+        t0 = time.time()
+        f2 = e.submit(die, "signal", 9)
+        for f in (f1, f2):
+            try:
+                f.result(20)
+            except BaseException as ex:
+                if type(ex).__name__ not in ("TerminatedWorkerError", "BrokenProcessPool"):
+                    unresolved += 1
+        t1 = time.time()
+        import threading
+        th = threading.Thread(target=lambda: e.shutdown(wait=True), daemon=True); th.start(); th.join(10)
+        if th.is_alive() or t1 - t0 > 15:
+            slow += 1
+        time.sleep(0.3)
+        survivors += [p for p in pids if alive(p)]
+        for p in pids:
+            try:
+                os.kill(p, signal.SIGKILL)
+            except OSError:
+                pass
+        if th.is_alive():
+            th.join(15)
+    return {"trials": trials, "workers_alive_after": survivors, "unresolved": unresolved, "slow_or_hung": slow}
+
 if __name__ == "__main__":
     import tempfile
     mode = sys.argv[1]
     d = tempfile.mkdtemp(prefix="lokyv_kill_")
-    if mode == "churn":
+    if mode == "churn_death":
+        out = churn_death(int(sys.argv[2]))
+    elif mode == "churn":
         out = churn(int(sys.argv[2]), sys.argv[3] == "1")
     elif mode == "forced":
         out = forced(d, sys.argv[2] == "1", sys.argv[3] == "1", sys.argv[4] == "1")
